@@ -1191,6 +1191,86 @@ theorem logical_expr_setting_independent (s s' : Bool × Bool) (env : Nat → Bo
     (h : e.logicOnly = true) : spoxLExpr s env e = spoxLExpr s' env e := by
   rw [logical_expr_matches s env e h, logical_expr_matches s' env e h]
 
+/-! ## Round 10: numpy's result element type over whole expressions (floats, `/`, scalars included) -/
+
+/-- expressions over the operand kinds of `result_dtype_matches`: numeric Vars of all 11 dtypes (floating ones
+    included), Python int / float / bool, numpy scalars, under `+ - * / //` -/
+inductive DExpr
+  | leaf (o : Operand)
+  | bin (op : Op) (l r : DExpr)
+
+def DExpr.wf : DExpr → Bool
+  | .leaf o => operands.contains o
+  | .bin op l r => binOps.contains op && l.wf && r.wf
+
+/-- numpy: what the expression is as an operand of the next operator - a leaf is itself, an application with at
+    least one array operand is an array of numpy's result dtype (`none`: numpy raises, or both operands are plain
+    scalars, which is Python's own arithmetic and not the subject) -/
+def npD : DExpr → Option Operand
+  | .leaf o => some o
+  | .bin op l r =>
+      match npD l, npD r with
+      | some a, some b => if Operand.isVar a || Operand.isVar b then (npResult op a b).map .var else none
+      | _, _ => none
+
+/-- spox (promotion and constant promotion on): each application dispatched on the operand kinds computed so far -/
+def spoxD : DExpr → Option Operand
+  | .leaf o => some o
+  | .bin op l r =>
+      match spoxD l, spoxD r with
+      | some a, some b =>
+          if Operand.isVar a || Operand.isVar b then (resultDtype (dispatch info (some (true, true)) op a b)).map .var else none
+      | _, _ => none
+
+/-- numpy's result dtypes stay inside the 11 numeric dtypes (needed to iterate `result_dtype_matches`) -/
+theorem npResult_closed :
+    ∀ op ∈ binOps, ∀ a ∈ operands, ∀ b ∈ operands,
+      (match npResult op a b with | some t => numeric.contains t | none => true) = true := by
+  decide +kernel
+
+theorem var_mem_operands (t : Nat) (h : t ∈ numeric) : Operand.var t ∈ operands := by
+  simp only [operands, List.mem_append, List.mem_map]
+  exact Or.inl (Or.inl ⟨t, h, rfl⟩)
+
+/-- **The result element type is numpy's over whole expressions**: for every expression built with `+ - * / //`
+    from numeric Vars (integer and floating), Python ints / floats / bools and numpy scalars on either side, the
+    element type of every intermediate and of the result of the emitted graph is the one numpy gives - and spox
+    refuses exactly where numpy raises. Lifts `result_dtype_matches` by induction (values of floating results are
+    not the subject: see `floordiv_float_partial`). -/
+theorem expr_dtype_matches :
+    ∀ e : DExpr, e.wf = true → spoxD e = npD e ∧ ∀ o, npD e = some o → o ∈ operands
+  | .leaf o, h => by
+    simp only [DExpr.wf, List.contains_iff_mem] at h
+    exact ⟨rfl, fun o' ho => by simp only [npD, Option.some.injEq] at ho; subst ho; exact h⟩
+  | .bin op l r, h => by
+    simp only [DExpr.wf, Bool.and_eq_true, List.contains_iff_mem] at h
+    obtain ⟨⟨hop, hl⟩, hr⟩ := h
+    obtain ⟨el, ml⟩ := expr_dtype_matches l hl
+    obtain ⟨er, mr⟩ := expr_dtype_matches r hr
+    simp only [spoxD, npD, el, er]
+    cases hnl : npD l with
+    | none => simp
+    | some a =>
+      cases hnr : npD r with
+      | none => simp
+      | some b =>
+        have ha := ml a hnl
+        have hb := mr b hnr
+        by_cases hv : (Operand.isVar a || Operand.isVar b) = true
+        · simp only [hv, if_true]
+          rw [result_dtype_matches op hop a ha b hb hv]
+          refine ⟨rfl, ?_⟩
+          intro o ho
+          have hc := npResult_closed op hop a ha b hb
+          cases hres : npResult op a b with
+          | none => simp [hres] at ho
+          | some t =>
+            simp only [hres, Option.map_some, Option.some.injEq] at ho
+            subst ho
+            simp only [hres, List.contains_iff_mem] at hc
+            exact var_mem_operands t hc
+        · simp [hv]
+
 /-! ## What does not hold (listed findings), with the part that does -/
 
 /-- Known finding `neg:unsigned:refused`: numpy negates unsigned arrays (wrap-around), ONNX defines no
@@ -1243,5 +1323,9 @@ example : npLExpr (fun i => [true, false].getD i false) (.bin .xor (.not (.bin .
     spoxLExpr (false, false) (fun i => [true, false].getD i false)
       (.bin .xor (.not (.bin .and_ (.var 0) (.var 1))) (.bin .or_ (.var 0) (.not (.var 1)))) = some (boolDt, 0) := by
   decide +kernel
+
+-- (x0 + 1) / x1 * 2.5 with x0 : int8, x1 : int32 -> float64; uint64 + int8 -> float64 (numpy's rule), then // int16 stays float64
+example : npD (.bin .mul (.bin .truediv (.bin .add (.leaf (.var 0)) (.leaf (.pyInt 1))) (.leaf (.var 2))) (.leaf .pyFloat)) = some (.var 10) ∧
+    spoxD (.bin .floordiv (.bin .add (.leaf (.var 7)) (.leaf (.var 0))) (.leaf (.var 1))) = some (.var 10) := by decide +kernel
 
 end C17
